@@ -43,7 +43,13 @@ def run(ctx, replay=None):
         fname = rng.choice(obs.DETERMINISTIC)
         a = [[-6, 0], [-3, 3]] if rng.random() < 0.3 else obs.random_area(rng, fname, maxext=3)
         for r in ['R', 'B', 'L']:
-            jobs.append(dict(kind='rot', rec_id=3 * k + 'RBL'.index(r), fname=fname, area_json=a, st_json=st, r=r, want=['C07']))
+            jobs.append(dict(kind='rot', rec_id=len(jobs), fname=fname, area_json=a, st_json=st, r=r, want=['C07']))
+        if k % 5 == 0:
+            # the same view content through every deterministic function, most hiding first and then in reverse
+            for fn2 in ['raytracing', 'partially_occluded', 'fully_transparent', 'partially_occluded', 'raytracing']:
+                if obs.area_valid_for(fn2, a):
+                    for r in ['R', 'L']:
+                        jobs.append(dict(kind='rot', rec_id=len(jobs), fname=fn2, area_json=a, st_json=st, r=r, want=['C07']))
     oc.run_obs_part(ctx, 'random', jobs, PREFIX)
 
 
